@@ -18,6 +18,9 @@ func vMapWorkload(tpl, nk int) *vWorkload {
 	case 4: // two schemas and two channels written in descending id order (the writer's own id->record maps), metadata map
 		wl.recs = []vRec{vSchemaRec("s2", 2, 1), vSchemaRec("s1", 1, 1), vChannelRec("c2", 2, 2, 1, nk), vChannelRec("c1", 1, 1, 1, 0),
 			vMessageRec("m1", 1, 1), vMessageRec("m2", 2, 1)}
+	case 5: // five registered channels (descending ids), only two of them carry messages, both in one chunk
+		wl.recs = []vRec{vChannelRec("c5", 5, 0, 1, 0), vChannelRec("c4", 4, 0, 1, 0), vChannelRec("c3", 3, 0, 1, nk-1), vChannelRec("c2", 2, 0, 1, 0), vChannelRec("c1", 1, 0, 1, 0),
+			vMessageRec("m1", 4, 1), vMessageRec("m2", 2, 1), vMessageRec("m3", 4, 1)}
 	}
 	return wl
 }
